@@ -310,7 +310,7 @@ JOBKINDS = ["coroutine function", "callable object with async __call__", "UNHASH
 
 
 def two_params(tier):
-    return [P("handler", 0, 1), P("jobkind", 0, 3), P("api", 0, 1), P("order", 0, 1)]
+    return [P("handler", 0, 1), P("jobkind", 0, 3), P("api", 0, 1), P("order", 0, 1), P("group", 0, 2)]
 
 
 @guard
@@ -319,16 +319,25 @@ def two_fn(a, tier):
     from dataclasses import dataclass
 
     handler_kind, jobkind, api, order = pick(a["handler"], 2), pick(a["jobkind"], 4), pick(a["api"], 2), pick(a["order"], 2)
+    # group 1 / 2: task "two" ends by raising an ExceptionGroup of two / of one Exception(s); the (accepting) handler must get THAT object, once
+    group = pick(a["group"], 3)
+    if group:
+        handler_kind = 1
     seen = {}
     problems = []
     gate = {}
+    handled = []
+    the_group = ExceptionGroup("batch failed", [ValueError("row 1"), KeyError("row 2")][: 3 - group])
 
     def handler(exc):
+        handled.append(exc)
         return True
 
     async def body(tag):
         seen[tag] = (sorted(get_resources(RT[0])), current_context().parent)
         await gate["go"].wait()
+        if group and tag == "two":
+            raise the_group
 
     def make_job(tag):
         if jobkind == 0:
@@ -392,11 +401,14 @@ def two_fn(a, tier):
 
     _, exc, k = run(main)
     summary = {"exception_handler": ["none", "the same function for both factories"][handler_kind], "job": JOBKINDS[jobkind],
-               "api": ["start_task", "start_task_soon"][api], "spawn_order": "two, one" if order else "one, two"}
+               "api": ["start_task", "start_task_soon"][api], "spawn_order": "two, one" if order else "one, two",
+               "task_two_raises": ["nothing", "an ExceptionGroup of two Exceptions", "an ExceptionGroup of one Exception"][group]}
     if exc is not None:
         return FAIL(f"two:raised:{type(flatten(exc)[0]).__name__}:job={jobkind}", repr(exc), summary)
     if problems:
         return FAIL(f"two:{problems[0][0]}", problems[0][1], summary)
+    if group and (len(handled) != 1 or handled[0] is not the_group):
+        return FAIL(f"two:escaping-exception-group-not-passed-to-the-handler-exactly-once-as-itself:members={3 - group}", repr(handled), summary)
     if seen.get("one", (None,))[0] != ["early"] or seen.get("two", (None,))[0] != ["early", "late"]:
         return FAIL("two:snapshot-of-the-wrong-moment", f"one sees {seen.get('one')} two sees {seen.get('two')}", summary)
     c1, c2, owner = seen["ctxs"]
@@ -422,4 +434,102 @@ TWO = Harness(
     stubs=STUBS_COMMON,
 )
 
-HARNESSES = [H, TWO]
+
+# ------------------------------------------------------------------------------ T-interrupted
+def intr_params(tier):
+    return [P("kind", 0, 1), P("api", 0, 1), P("delay", 0, 2), P("gap0", 0, 6), P("arm0", 0, 3)]
+
+
+@guard
+def intr_fn(a, tier):
+    """The teardown of a factory's owning (non-root) context is INTERRUPTED by a cancellation aimed at something else: the factory's running tasks are not cancelled by that."""
+    kind, api, delay = pick(a["kind"], 2), pick(a["api"], 2), pick(a["delay"], 3)
+    tape = DeviationTape([(a["gap0"], a["arm0"])], 6)
+    log = []
+    release = {}
+    Cancelled = symsched.Cancelled
+
+    async def subjob():
+        log.append("subjob begin")
+        try:
+            await release["ev"].wait()
+            await anyio.sleep(0)
+            log.append("subjob finished its work")
+        except BaseException as e:
+            log.append("subjob saw " + ("cancel" if isinstance(e, Cancelled) else type(e).__name__))
+            raise
+
+    async def owner_scope(started):
+        # a non-root context that owns a task factory with one running task
+        async with Context():
+            tf = await start_background_task_factory()
+            if api == 0:
+                await tf.start_task(subjob, "subjob")
+            else:
+                tf.start_task_soon(subjob, "subjob")
+            started.set()
+            await anyio.sleep_forever()
+
+    async def main():
+        release["ev"] = anyio.Event()
+        async with Context() as root:
+            started = anyio.Event()
+            if kind == 0:
+                # the owner is a task of an outer factory; it is cancelled through ITS handle
+                outer = await root.start_background_task_factory()
+                handle = await outer.start_task(lambda: owner_scope(started), "owner")
+                await started.wait()
+                for _ in range(delay):
+                    await anyio.sleep(0)
+                handle.cancel()
+                await handle.wait_finished()
+            else:
+                # the owner is a request handler running under a cancel scope (a timeout) of its own
+                async with anyio.create_task_group() as tg:
+                    scope = anyio.CancelScope()
+
+                    async def handler():
+                        with scope:
+                            await owner_scope(started)
+
+                    tg.start_soon(handler)
+                    await started.wait()
+                    for _ in range(delay):
+                        await anyio.sleep(0)
+                    scope.cancel()
+            log.append("owner gone")
+            for _ in range(3):
+                await anyio.sleep(0)
+            release["ev"].set()
+            for _ in range(4):
+                await anyio.sleep(0)
+
+    _, exc, k = run(main, chooser=tape)
+    summary = {"owner": ["a task of an outer factory, cancelled through its handle", "a handler under its own cancel scope, which is cancelled"][kind],
+               "spawn": ["start_task", "start_task_soon"][api], "delay": delay, "schedule": tape.taken}
+    if exc is not None:
+        return FAIL(f"interrupted:raised:{type(flatten(exc)[0]).__name__}", f"{exc!r} log={log}", summary)
+    if "subjob saw cancel" in log:
+        return FAIL(f"interrupted:task-of-the-factory-cancelled-by-a-cancellation-aimed-at-its-owner:kind={kind}", f"{log}", summary)
+    if "subjob begin" in log and "subjob finished its work" not in log:
+        return FAIL("interrupted:task-never-finished", f"{log}", summary)
+    if k.live_tasks():
+        return FAIL("interrupted:task-alive", [t.name for t in k.live_tasks()], summary)
+    return OK(summary, "subjob begin" in log)
+
+
+INTR = Harness(
+    prop="C09",
+    name="T-interrupted",
+    fn=intr_fn,
+    params=intr_params,
+    cube=lambda tier: 2,
+    title="a cancellation aimed at the owner of a nested factory does not cancel the factory's running task",
+    bound_text=lambda tier: "a non-root context owning a factory with one task waiting for an event; the owner is a task of an outer factory cancelled through its handle, or a handler "
+    "whose own cancel scope is cancelled, 0-2 checkpoints after the spawn; the task is released afterwards; FIFO with one deviation in 6 decisions",
+    oracle="the task never sees a cancellation ('cancel() ends only that task' / the owner's teardown 'does not cancel' running tasks) and finishes its work; nothing is left",
+    outside="-",
+    stubs=STUBS_COMMON,
+)
+
+HARNESSES = [H, TWO, INTR]
